@@ -88,15 +88,19 @@ def find_critical(R, Z, psi, atol, maxits, discard_xpoints=False):
     nx, ny = Bp2.shape
     for i in range(2, nx - 2):
         for j in range(2, ny - 2):
+            # Strictly smaller than the neighbours that come later in the loops, smaller or
+            # equal to those that come earlier: when a critical point lies exactly midway
+            # between grid points of symmetric data, two (or four) neighbouring points have
+            # exactly equal Bp2 and one of them, instead of none, is taken as the minimum
             if (
                 (Bp2[i, j] < Bp2[i + 1, j + 1])
                 and (Bp2[i, j] < Bp2[i + 1, j])
                 and (Bp2[i, j] < Bp2[i + 1, j - 1])
-                and (Bp2[i, j] < Bp2[i - 1, j + 1])
-                and (Bp2[i, j] < Bp2[i - 1, j])
-                and (Bp2[i, j] < Bp2[i - 1, j - 1])
+                and (Bp2[i, j] <= Bp2[i - 1, j + 1])
+                and (Bp2[i, j] <= Bp2[i - 1, j])
+                and (Bp2[i, j] <= Bp2[i - 1, j - 1])
                 and (Bp2[i, j] < Bp2[i, j + 1])
-                and (Bp2[i, j] < Bp2[i, j - 1])
+                and (Bp2[i, j] <= Bp2[i, j - 1])
             ):
                 # Found local minimum
 
